@@ -112,6 +112,37 @@ PROPS = {
             "HttpError::is_server_error classifies TimerThreadNotStarted as not-a-server-error although it maps to 500 (observation, outside the property statement)",
         ],
     },
+    "C09": {
+        "title": "Body size limits",
+        "design_ref": "DESIGN.md section 3 (C09)",
+        "technique": "Verus contracts on the real body readers (copy_async, read_http_body_to_vec/_to_file, read_http_unsized_body_to_vec/_to_file, "
+                     "RequestBody::len/is_pending) over the reader event history, with assumed contracts for Take / File / TempFile / FixedBuf",
+        "level_text": "Deductive proof for every declared length, every limit in u64 (including 0 and u64::MAX) and every read partition, unbounded: "
+                      "a known-length read consumes at most len bytes, returns exactly the next len bytes (Vec) / reports len (file) or fails "
+                      "with Truncated; an unknown-length read takes at most max_len+1 bytes from the connection and writes exactly those to the "
+                      "temp file, is accepted iff the stream ended within max_len bytes and otherwise fails with BodyTooLong; copy_async copies "
+                      "every byte once, in order, and returns the count; no arithmetic overflows (max_len+1 at u64::MAX was a genuine defect, fixed).",
+        "level_note": "Assumed contracts: futures-lite Take (budget, pass-through, prophecy relation take_fate), async_fs::File as a writer, "
+                      "temp_file::TempFile, fixed_buffer::FixedBuf (from its source), io read/write_all; the temp file's on-disk content is the "
+                      "writer's ghost `cur()`; async removed (D1/D2). Not covered: the small-body shortcut and 413 mapping in handle_http_conn_once "
+                      "(generic handler closure), Request::recv_body, 'never holds more than S bytes in memory'.",
+        "verus": ["body"],
+        "verus_thorough": ["copy"],
+        "kani": [],
+        "witness": "c09",
+        "assumptions": [
+            "assumed contract (futures-lite Take): delivers at most `limit` bytes, each the next byte of the inner reader; reports Eof itself once the budget is used; inner reader given up with the Take",
+            "assumed contract (async_fs::File / temp_file::TempFile): create gives an empty writer; what is written is the file's content",
+            "assumed contract (fixed_buffer::FixedBuf 1.0.2): index arithmetic of new/writable/wrote/read_all as in its source",
+            "assumed contracts of read / read_to_end / write_all / close (contracts/io.pre.rs)",
+            "usize is 64 bits (Verus default) for `len as u64`",
+        ],
+        "not_covered": [
+            "handle_http_conn_once's `*len <= small_body_len as u64` shortcut and the second handler run (generic async handler closure)",
+            "Request::recv_body (needs url::Url / HashMap stand-ins); BodyTooLong -> 413 is covered by C20's mapping harness",
+            "memory residency ('never holds more than S body bytes in memory')",
+        ],
+    },
 }
 
 NOT_APPLICABLE = {}
